@@ -172,3 +172,48 @@ type vpErr struct{}
 func (vpErr) Error() string { return "load failed" }
 
 var errTest error = vpErr{}
+
+// VPH_C11_getcert_cv: the same for EVERY server name of up to NAMELEN characters over letters of
+// both cases and dots (a character vector: each length, symbolic characters).
+func VPH_C11_getcert_cv() {
+	certs := []tls.Certificate{{}, {}, {}, {}}
+	cs := certstore{Certificates: certs, NameToCertificate: map[string]*tls.Certificate{
+		"foo.com": &certs[1], "*.foo.com": &certs[2], "*.*.com": &certs[3],
+	}}
+	max := vp.Param("NAMELEN")
+	ln := vp.Choice("name-len", max+1)
+	name := ""
+	for i := 0; i <= max; i++ {
+		if ln == i {
+			name = vp.Chars("name", "a-zA-Z.", i)
+		}
+	}
+	if n := vp.Param("NSHARDS"); n > 1 {
+		vp.Assume(len(name)%n == vp.Param("SHARD"))
+	}
+	strict := vp.Bool("strict")
+	got, err := getCertificate(cs, &tls.ClientHelloInfo{ServerName: name}, strict)
+	vp.Assert(err == nil, "no-error-with-certificates")
+
+	n := strings.ToLower(name)
+	for len(n) > 0 && n[len(n)-1] == '.' {
+		n = n[:len(n)-1]
+	}
+	var want *tls.Certificate
+	switch {
+	case n == "foo.com":
+		vp.Cover("exact")
+		want = &certs[1]
+	case strings.HasSuffix(n, ".foo.com") && !strings.Contains(n[:len(n)-len(".foo.com")], "."):
+		vp.Cover("wildcard")
+		want = &certs[2]
+	case strings.HasSuffix(n, ".com") && vpOneDot(n[:len(n)-len(".com")]):
+		vp.Cover("double-wildcard")
+		want = &certs[3]
+	case strict:
+		want = nil
+	default:
+		want = &certs[0]
+	}
+	vp.Assert(got == want, "best-matching-certificate")
+}
